@@ -40,7 +40,8 @@ def demo(tree):
 ok = True
 log = {}
 try:
-    r = sh("git -C /repo worktree add -q --detach %s HEAD" % wt)
+    base = sh("git -C %s rev-parse HEAD" % os.path.abspath(os.path.join(src, "..", ".."))).stdout.strip() or "HEAD"
+    r = sh("git -C /repo worktree add -q --detach %s %s" % (wt, base))
     assert r.returncode == 0, r.stderr
     base_sum, base_failed = tests(wt)
     rc0, out0 = demo(wt)
@@ -52,7 +53,8 @@ try:
     rc1, out1 = demo(wt)
     strip = lambda s: re.sub(r" in [0-9.]+s.*", "", s)
     log = {"tests_pristine": strip(base_sum), "tests_with_change": strip(mut_sum), "failing_ids_same": base_failed == mut_failed,
-           "demo_pristine_rc": rc0, "demo_with_change_rc": rc1, "demo_with_change_tail": out1[-300:], "repo_head": sh("git -C /repo rev-parse --short HEAD").stdout.strip()}
+           "demo_pristine_rc": rc0, "demo_with_change_rc": rc1, "demo_with_change_tail": out1[-300:], "base_commit": base[:7],
+           "applies_to_repo_head": sh("git -C /repo apply --check %s" % os.path.join(os.path.abspath(src), "patch.diff")).returncode == 0}
     ok = strip(base_sum) == strip(mut_sum) and base_failed == mut_failed and rc0 == 0 and rc1 != 0
 finally:
     sh("git -C /repo worktree remove --force %s" % wt)
